@@ -8,7 +8,7 @@ from mc.core import Result, SubCheck
 
 PROPERTY = "C18"
 ASSUMPTIONS = [
-    "operating points on a lattice: evaporating temperature every 20 K inside each refrigerant's two-phase range, lift in {3,10,30,60} K, superheat/subcooling in {0,5} K, "
+    "operating points on a lattice: evaporating temperature every 20 K inside each refrigerant's two-phase range, lift in {3,10,30,60} K (and 100 K in the thorough tier), superheat/subcooling in {0,5} K, "
     "compressor efficiency in {0.5,0.7,1}, duty in {1,1000}; plus, at efficiency 0.7, superheat / subcooling of 0.003 K and a duty of 2e-5; no internal heat exchanger (ihx_gas_dt = 0)",
     "operating points whose evaporating pressure is below 1 kPa are outside the alphabet (the property library's state inversions break down there)",
     "'solves' means solve() returns; operating points where the property library (CoolProp) itself raises are counted as not solved and are not violations",
@@ -53,7 +53,7 @@ def points(tier, inst):
                     continue      # below 1 kPa the property library's flashes are not reliable; not a heat-pump operating point
             except Exception:
                 continue
-            for lift in (3, 10, 30, 60):
+            for lift in ((3, 10, 30, 60) if tier == "quick" else (3, 10, 30, 60, 100)):
                 Tc = Te + lift
                 if Tc > tcrit - 5:
                     continue
